@@ -531,6 +531,7 @@ func (up4 *UP4) listenToDDNs() {
 	logger.PfcpLog.Info("listening to Data Notifications from UP4..")
 
 	notifier := NewDownlinkDataNotifier(up4.reportNotifyChan, 20*time.Second)
+	verifPoint("ddn.notifier", notifier)
 
 	for {
 		if up4.IsConnected(nil) {
